@@ -72,6 +72,11 @@ fn concretise_fast(r: &Value, i: usize, salt: &str) -> (Value, Vec<Value>, Strin
     match k {
         "getinfo" => (json!({"method": "org.varlink.service.GetInfo"}),
             vec![json!({"parameters": {"vendor": svc::RESOLVER_VENDOR, "product": "resolver", "version": "1", "url": "http://r", "interfaces": ["org.example.gen", "org.example.script"]}})], tok),
+        "descr" => {
+            // the description of an interface comes from the service that has it (the bridge routes by the `interface` argument)
+            let (name, text) = if on_a { ("org.example.gen", crate::conn::GEN_DESCR) } else { ("org.example.script", svc::SCRIPT_DESCR) };
+            (json!({"method": "org.varlink.service.GetInterfaceDescription", "parameters": {"interface": name}}), vec![json!({"parameters": {"description": text}})], tok)
+        }
         "ok" => if on_a {
             // every third such call carries a value larger than the copy buffers of the bridge (8 KiB)
             let big = if (i + salt.len()) % 3 == 0 { format!("{}{}", tok, "P".repeat(20_000)) } else { tok.clone() };
